@@ -431,6 +431,7 @@ pub fn gen_cfg(rng: &mut Rng, t: &Tree, full: bool) -> Cfg {
     let sd = match rng.below(10) {
         0..=5 => Some(t.src.clone()),
         6 => Some("/nonexistent/srcdir".to_string()),
+        7 if rng.chance(1, 10) => Some("rel/src".to_string()), // `assert!(p.is_absolute())`
         _ => None,
     };
     let pd = match rng.below(12) {
